@@ -1,5 +1,6 @@
 """C12 — least rotation."""
 from common import *
+import itertools
 
 RULE = ("exhaustive: every word over {a,b} to length L2, {a,b,c} to length L3, ACGT to length L4 (and the empty string); "
         "then random, periodic (powers), near-periodic (a power with one letter changed) and Fibonacci words up to MAXLEN; "
@@ -8,8 +9,8 @@ RULE = ("exhaustive: every word over {a,b} to length L2, {a,b,c} to length L3, A
 EXHAUSTIVE = {"quick": False, "thorough": True}
 TRUSTED_BASE = ["Spec/Rotation.lean: arg-min over all rotations (quadratic) judges inputs up to 1500 letters; the independent "
                 "two-pointer algorithm judges longer ones and is itself compared with the arg-min spec on every short input",
-                "bytes are ASCII letters (Go compares bytes, the model compares code points)"]
-ASSUMPTIONS = ["inputs are ASCII"]
+                "byte strings are submitted hex-encoded (rotatehex) and decoded to code points of the same value, so the model's code-point order is Go's byte order; text cases (rotate) are ASCII"]
+ASSUMPTIONS = ["a byte is modelled as the code point of the same value"]
 PARTIAL = []
 PROOF_MODULES = ["PolyVerif.Props.C12", "PolyVerif.Props.C12Booth"]
 TIMEOUT_MS = 60000
@@ -27,6 +28,28 @@ def cases(seed, tier):
     for w in words("ab", L2, 1): yield ["rotate", w]
     for w in words("abc", L3, 1): yield ["rotate", w]
     for w in words("ACGT", L4, 1): yield ["rotate", w]
+    # arbitrary bytes (the property says "all byte strings"): high bytes, NUL, invalid UTF-8, mixed case
+    def hx(bs): return "".join("%02x" % b for b in bs)
+    byte_alpha = [0x00, 0x09, 0x41, 0x5c, 0x61, 0x7f, 0x80, 0xc3, 0xff]
+    Lb = 4 if tier == "quick" else 6
+    for n in range(1, Lb + 1):
+        for t in itertools.product(byte_alpha[:7] if n > 4 else byte_alpha, repeat=n):
+            yield ["rotatehex", hx(t)]
+    for _ in range(300 if tier == "quick" else 5000):
+        k = loglen(r, 2, 3000)
+        kind = r.random()
+        if kind < 0.4:
+            bs = [r.randrange(256) for _ in range(k)]
+        elif kind < 0.7:   # periodic over a few bytes incl. high ones
+            base = [r.choice([0x00, 0x7f, 0x80, 0xfe, 0xff, 0x41, 0x61]) for _ in range(r.randint(1, 6))]
+            bs = (base * (k // len(base) + 1))[:k]
+            if r.random() < 0.5: bs[r.randrange(k)] = r.randrange(256)
+        else:              # mixed-case letters (upper < lower in byte order)
+            bs = [ord(r.choice("ACGTacgt")) for _ in range(k)]
+        yield ["rotatehex", hx(bs)]
+    for w in ["Ba", "aA", "Aa", "ACGTacgt", "acgtACGT", "aabaaAaabaab"]:
+        for kk in range(len(w)):
+            yield ["rotate", w[kk:] + w[:kk]]
     maxlen = 20000 if tier == "quick" else 1000000
     n = 200 if tier == "quick" else 1500
     for i in range(n):
